@@ -11,7 +11,7 @@ use super::{
     TSetIdentifier, TStructIdentifier, TType, ThriftException, ZERO_COPY_THRESHOLD,
     error::ProtocolExceptionKind,
     new_protocol_exception,
-    rw_ext::{ReadExt, WriteExt, split_to_checked},
+    rw_ext::{ReadExt, WriteExt, read_exact_to_vec, split_to_checked},
 };
 
 static VERSION_1: u32 = 0x80010000;
@@ -863,9 +863,7 @@ where
     #[inline]
     async fn read_bytes_vec(&mut self) -> Result<Vec<u8>, ThriftException> {
         let len = self.reader.read_i32().await? as usize;
-        // FIXME: use maybe_uninit?
-        let mut v = vec![0; len];
-        self.reader.read_exact(&mut v).await?;
+        let v = read_exact_to_vec(&mut self.reader, len).await?;
         Ok(v)
     }
 
@@ -879,9 +877,7 @@ where
     #[inline]
     async fn read_string(&mut self) -> Result<String, ThriftException> {
         let len = self.reader.read_i32().await? as usize;
-        // FIXME: use maybe_uninit?
-        let mut v = vec![0; len];
-        self.reader.read_exact(&mut v).await?;
+        let v = read_exact_to_vec(&mut self.reader, len).await?;
         Ok(unsafe { String::from_utf8_unchecked(v) })
     }
 
